@@ -218,3 +218,66 @@ func VerifC17_parseTimeFull() {
 	mon, day, hh, mm, ss := num(4), num(6), num(8), num(10), num(12)
 	vrt.Assert(mon >= 1 && mon <= 12 && day >= 1 && day <= 31 && hh < 24 && mm < 60 && ss < 60, "C17/accepted-time-fields-in-range")
 }
+
+// refZoneTailC17: what may follow the digits of a time literal (ASCII): optional white space without a
+// newline, then exactly ONE zone letter of Appendix B, then the end of the literal or white space / a
+// newline (what follows that white space is not examined by bfe and is not judged here). In particular a
+// zone letter with anything glued to it ("HH", "UTC", "Z+0800", "H8") is not a zone.
+// Returns whether the tail is acceptable and the zone letter.
+func refZoneTailC17(tail string) (bool, byte) {
+	const (
+		skipping = 0 // before the zone word
+		letter   = 1 // the zone word has one character so far
+		done     = 2 // the zone word ended after one character
+		bad      = 3
+	)
+	st := skipping
+	var zc byte
+	for i := 0; i < len(tail); i++ {
+		c := tail[i]
+		nl := c == '\n'
+		sp := c == ' ' || c == '\t' || c == '\v' || c == '\f' || c == '\r'
+		if st == skipping {
+			if nl {
+				st = bad
+			} else if !sp {
+				st, zc = letter, c
+			}
+		} else if st == letter {
+			if nl || sp {
+				st = done
+			} else {
+				st = bad
+			}
+		}
+	}
+	_, isZone := refZoneC17(zc)
+	return (st == letter || st == done) && isZone, zc
+}
+
+// VerifC17_timeZoneTail: a concrete well-formed yyyymmddhhmmss (ParseTime) / hhmmss (ParseTimeOfDay)
+// followed by 0..TAIL symbolic ASCII bytes: no panic; the literal is accepted exactly when the tail is one
+// zone letter in the sense of refZoneTailC17 - an invalid time argument (no zone, unknown zone, characters
+// glued to the zone letter) is rejected with an error; the zone offset is the documented one.
+func VerifC17_timeZoneTail() {
+	l := vrt.Range("tail", 0, vrt.Param("TAIL", 3))
+	tail := asciiStrC17(l)
+	want, zc := refZoneTailC17(tail)
+	wantOff, _ := refZoneC17(zc)
+	if vrt.Choose("func", 2) == 0 {
+		tm, err := ParseTime("20190204203000" + tail)
+		vrt.Assert((err == nil) == want, "C17/time-accepted-iff-tail-is-one-zone-letter")
+		if err == nil && want {
+			// 2019-02-04 20:30:00 in the zone = 1549312200 - offset in UTC
+			vrt.Assert(tm.Unix() == 1549312200-int64(wantOff), "C17/time-zone-offset")
+		}
+		return
+	}
+	ts, off, err := ParseTimeOfDay("203000" + tail)
+	vrt.Assert((err == nil) == want, "C17/time-of-day-accepted-iff-tail-is-one-zone-letter")
+	if err == nil && want {
+		vrt.Assert(off == wantOff, "C17/time-of-day-tail-zone-offset")
+		h, m, sec := ts.Clock()
+		vrt.Assert(h == 20 && m == 30 && sec == 0, "C17/time-of-day-tail-clock")
+	}
+}
